@@ -5,7 +5,7 @@
 # "cannot decide" (2) and is printed with the tail of the output.
 dir=$1; label=$2; shift 2
 mkdir -p /verif/.build/neutral
-for p in "$dir"/p*/patch.diff; do
+for p in "$dir"/[pq]*/patch.diff; do
   n=$(basename $(dirname "$p"))
   wt=$(mktemp -d /tmp/neutral-XXXXXX)
   git -C /repo worktree add -q --detach "$wt" HEAD || exit 2
